@@ -14,6 +14,14 @@ MUTANTS = {
         ('return-or-exit-forgets-exit', RS, 'ExecutionControlFlow::ReturnFromFunctionOrScript | ExecutionControlFlow::ExitShell', 'ExecutionControlFlow::ReturnFromFunctionOrScript'),
         ('continue-zero-stays', RS, 'Self::BreakLoop { levels: 0 } | Self::ContinueLoop { levels: 0 } => Self::Normal', 'Self::BreakLoop { levels: 0 } => Self::Normal'),
     ],
+    'U3': [
+        ('errexit-ignores-pending-flow', 'brush-core/src/shell.rs', '''            && !result.is_success()
+            && result.is_normal_flow()''', '''            && !result.is_success()'''),
+        ('errexit-on-success', 'brush-core/src/shell.rs', '            && !result.is_success()\n            && result.is_normal_flow()', '            && result.is_normal_flow()'),
+        ('errexit-returns-instead-of-exits', 'brush-core/src/shell.rs', 'result.next_control_flow = ExecutionControlFlow::ExitShell;', 'result.next_control_flow = ExecutionControlFlow::ReturnFromFunctionOrScript;'),
+        ('nounset-ignores-allow', 'brush-core/src/expansion.rs', 'if allow_unset_vars || !self.shell.options().treat_unset_variables_as_error {', 'if !self.shell.options().treat_unset_variables_as_error {'),
+        ('nounset-not-fatal', 'brush-core/src/expansion.rs', 'error::ErrorKind::ExpandingUnsetVariable(parameter.to_string()).into();\n            Err(err.into_fatal())', 'error::ErrorKind::ExpandingUnsetVariable(parameter.to_string()).into();\n            Err(err)'),
+    ],
     'U4a': [
         ('drop-decrement-on-cond-flow', IN, '                result.next_control_flow = result.next_control_flow.try_decrement_loop_levels();\n                break;', '                break;'),
         ('cond-not-suppressed', IN, '        // Execute loop condition with errexit suppressed\n        let mut condition_params = params.clone();\n        condition_params.suppress_errexit = true;', '        let mut condition_params = params.clone();\n        condition_params.suppress_errexit = false;'),
